@@ -1179,6 +1179,8 @@ def run(ctx):
     ]
     t_budget = 60 if quick else 780
     plan = list(QUICK_PLAN) if quick else thorough_plan(rng)
+    if not quick:
+        plan += [p for p in thorough_plan(rng) if p[1] * p[2] >= 4 and p[1] * p[2] <= 6]   # second circuits on the mid-size lattices
     signs_by_family = {}
     for fid in sorted({p[0] for p in plan}):
         contracts(ctx, family(fid))
